@@ -1005,6 +1005,25 @@ def sec_mfx_stats(ck, L):
         if n <= 6 and niter <= 2:
             terms.append("qclose (gmfx_mean %s %s %s - %s)%%Q %s" % (cnat(niter), cql(x.tolist()), cql(var.tolist()), cq(base), cq(got)))
             metas.append(("gmfx", niter, x.tolist(), var.tolist(), base, got))
+        # the constrained fit itself (fff_onesample_stat_gmfx_pdf_fit with constraint = 1, *mu = baseline on entry)
+        stp = L.fff_onesample_stat_mfx_new(n, 12, float(base))
+        stp.contents.niter = niter
+        stp.contents.constraint = 1
+        cmu, cv = ctypes.c_double(float(base)), ctypes.c_double(0.0)
+        L.fff_onesample_stat_gmfx_pdf_fit(ctypes.byref(cmu), ctypes.byref(cv), stp, ctypes.byref(vview(x)), ctypes.byref(vview(var)))
+        L.fff_onesample_stat_mfx_delete(stp)
+        m0r, v0r = gmfx_em(X_, V_, niter, True, B_)
+        ck.count(("gmfx", "constrained", it), bucket="mfx:gmfx-constrained-fit")
+        if cmu.value != base or abs(cv.value - float(v0r)) > 1e-10 * max(1.0, abs(cv.value)):
+            ck.fail("onesample_mfx/student_mfx-baseline-not-honoured" if base != 0 else "onesample_mfx/gmfx-constrained-fit-not-definition",
+                    "constrained Gaussian MFX fit (niter=%d, mean pinned at base=%r) returns mean %r, variance %r; definition: mean %r, variance %r"
+                    % (niter, base, cmu.value, cv.value, base, float(v0r)),
+                    {"x": x.tolist(), "var": var.tolist(), "base": base, "niter": niter, "out": [cmu.value, cv.value], "expected": [base, float(v0r)]})
+        if n <= 6 and niter <= 2:
+            terms.append("(qclose (student_mfx_null_mean %s %s %s %s) %s && qclose (student_mfx_null_var %s %s %s %s) %s)%%bool"
+                         % (cnat(niter), cq(base), cql(x.tolist()), cql(var.tolist()), cq(cmu.value),
+                            cnat(niter), cq(base), cql(x.tolist()), cql(var.tolist()), cq(cv.value)))
+            metas.append(("gmfx0", niter, x.tolist(), var.tolist(), base, cv.value))
         got = osm_eval(L, 12, x, var, base, niter)
         ck.count(("gmfx", "student", it), bucket="mfx:student_mfx")
         ref = None
@@ -1062,7 +1081,9 @@ def sec_mfx_stats(ck, L):
                     sig = "onesample_mfx/median_mfx-baseline-not-honoured"
                 ck.fail(sig, "%s(niter=%d, base=%r) = %r; from the fitted mixture (w, z) of pdf_fit the definition gives %r" % (name, niter, base, got, ref),
                         {"stat": name, "x": x.tolist(), "var": var.tolist(), "base": base, "niter": niter, "w": w.tolist(), "z": z.tolist(), "out": got, "expected": ref})
-    run_terms(ck, "gmfx", terms, metas, lambda t: "gmfx_mean %s %s %s" % (cnat(t[1]), cql(t[2]), cql(t[3])), hdr=HDR_MFX, shard=10)
+    run_terms(ck, "gmfx", terms, metas,
+              lambda t: ("gmfx_mean %s %s %s" % (cnat(t[1]), cql(t[2]), cql(t[3]))) if t[0] == "gmfx"
+              else ("gmfx_em %s true %s %s %s" % (cnat(t[1]), cq(t[4]), cql(t[2]), cql(t[3]))), hdr=HDR_MFX, shard=10)
     ck.section("mfx_stats", cases=N, model_cases=len(terms))
 
 
